@@ -125,6 +125,12 @@ def boundary_stream(ctx, navis, rng, tabs):
             ctx.violation('a distance / dot product exactly on a bin boundary selects the wrong cell (half-open side of the intervals)', desc, dict(impl=got, model=want))
 
 
+def _v1_published(dist, dots, sigma=10.0):
+    """the 'v1' score as published (Kohl et al. 2013): sqrt(|u.v| * exp(-d^2 / (2 sigma^2))), evaluated here, not by navis"""
+    dist = np.asarray(dist, dtype=float); dots = np.asarray(dots, dtype=float)
+    return np.sqrt(np.abs(dots) * np.exp(-dist ** 2 / (2.0 * sigma ** 2)))
+
+
 def run(ctx):
     import navis
     from translate import smat as tsm
@@ -222,8 +228,7 @@ def run(ctx):
                     exprs.append('qout (raw_score (%s) %s)' % (sm_term, term([(Fraction(float(a)), Fraction(float(b))) for a, b in zip(d, dots)])))
                 else:
                     if smat_kind == 'v1':
-                        from navis.nbl.smat import _nblast_v1_scoring
-                        exp_py[(i, j)] = float(np.sum(_nblast_v1_scoring(d, dots, sigma_scoring=10)))
+                        exp_py[(i, j)] = float(np.sum(_v1_published(d, dots)))
                     else:
                         exp_py[(i, j)] = float(np.sum(smat_arg(d, dots)))
             if sm_term is not None:
@@ -238,7 +243,7 @@ def run(ctx):
                     dd, dt = np.zeros(len(a)), np.sqrt(a * a)
                 else:
                     dd, dt = np.zeros(len(dps[i].points)), np.ones(len(dps[i].points))
-                exp_py[('self', i)] = float(np.sum(_nblast_v1_scoring(dd, dt, sigma_scoring=10))) if smat_kind == 'v1' else float(np.sum(smat_arg(dd, dt)))
+                exp_py[('self', i)] = float(np.sum(_v1_published(dd, dt))) if smat_kind == 'v1' else float(np.sum(smat_arg(dd, dt)))
         if skip:
             ctx.count('skipped:near-boundary-or-nn-tie')
             continue
